@@ -1,7 +1,181 @@
+/-
+  C14 — Transform pipelines are key-typed: ill-formed ones cannot be built or run.
+
+  PROPERTY THEOREMS ONLY (statements are fixed; helper lemmas live in TjdLemmas/C14Lemmas.lean).
+  All theorems quantify over *all* terms (any nesting depth, any key universe, any key shapes).
+-/
 import TjdModel.Autojac.Typing
+import TjdLemmas.C14Lemmas
 namespace Tjd.Props.C14
-open Tjd.Typing
+open Tjd Tjd.Typing
+
+/-- the dictionary type a transform produces from an input of type `τ`: "the most specific dictionary
+    type common to the parts" -/
+def tyOf : Term → DType → DType
+  | .init _, _ => .grads
+  | .select _ _, τ => τ
+  | .diag _, _ => .jacs
+  | .acc _, _ => .empty
+  | .stack _, _ => .jacs
+  | .conj ts, τ => tyOfList ts τ .empty
+  | .comp o i, τ => tyOf o (tyOf i τ)
+where
+  tyOfList : List Term → DType → DType → DType
+  | [], _, acc => acc
+  | t :: ts, τ, acc => tyOfList ts τ (lca acc (tyOf t τ))
+
+/-! ### set semantics of the key lists -/
+
+theorem seteq_iff (a b : List Key) : seteq a b = true ↔ ∀ k, k ∈ a ↔ k ∈ b := by
+  sorry
+
+/-- every constructor failure is a `ValueError` -/
+theorem build_error_is_value (t : Term) (e : Err) (h : build t = .error e) : e = .value := by
+  sorry
+
+/-- declared output keys never contain a key twice (they are Python sets) -/
+theorem build_output_nodup (t : Term) (σ : Sig) (h : build t = .ok σ) : σ.output.Nodup := by
+  sorry
+
+/-! ### construction succeeds exactly when the key sets match -/
+
+/-- Composition: succeeds iff both parts can be built and the outer one requires exactly the keys
+    the inner one outputs; the composite requires what the inner requires and outputs what the outer
+    outputs. -/
+theorem comp_builds_iff (o i : Term) (σ : Sig) :
+    build (.comp o i) = .ok σ ↔
+      ∃ σo σi, build o = .ok σo ∧ build i = .ok σi ∧ (∀ k, k ∈ σo.required ↔ k ∈ σi.output) ∧
+        σ = ⟨σi.required, σo.output⟩ := by
+  sorry
+
+/-- Conjunction: succeeds iff all members can be built, all require the same keys, and their output
+    key sets are pairwise disjoint; it then outputs the union. -/
+theorem conj_builds_iff (ts : List Term) :
+    (∃ σ, build (.conj ts) = .ok σ) ↔
+      ∃ sigs, buildList ts = .ok sigs ∧
+        (∀ s ∈ sigs, ∀ s' ∈ sigs, ∀ k, k ∈ s.required ↔ k ∈ s'.required) ∧
+        (sigs.flatMap (·.output)).Nodup := by
+  sorry
+
+theorem conj_sig (ts : List Term) (σ : Sig) (sigs : List Sig) (h : build (.conj ts) = .ok σ)
+    (hs : buildList ts = .ok sigs) :
+    (∀ k, k ∈ σ.output ↔ ∃ s ∈ sigs, k ∈ s.output) ∧
+    (∀ k, k ∈ σ.required ↔ ∃ s ∈ sigs, k ∈ s.required) := by
+  sorry
+
+/-! ### application -/
+
+/-- applying any (buildable) transform to a dictionary whose key set differs from its required keys
+    raises `ValueError` -/
+theorem apply_wrong_keys_rejected (ks : Key → Shape) (t : Term) (σ : Sig) (d : Dict)
+    (hb : build t = .ok σ) (hk : ¬ ∀ k, k ∈ σ.required ↔ k ∈ d.keys) :
+    apply ks t d = .error .value := by
+  sorry
+
+/-- a transform that cannot be built cannot be applied -/
+theorem apply_unbuildable (ks : Key → Shape) (t : Term) (e : Err) (d : Dict)
+    (hb : build t = .error e) : apply ks t d = .error e := by
+  sorry
+
+/-- TYPE SOUNDNESS (keys): whenever construction and application succeed, the input had exactly the
+    required keys and the result has exactly the declared output keys -/
+theorem apply_ok_keys (ks : Key → Shape) (t : Term) (σ : Sig) (d d' : Dict)
+    (hb : build t = .ok σ) (ha : apply ks t d = .ok d') :
+    (∀ k, k ∈ d.keys ↔ k ∈ σ.required) ∧ (∀ k, k ∈ d'.keys ↔ k ∈ σ.output) := by
+  sorry
+
+/-- TYPE SOUNDNESS (dictionary class): the result has the most specific dictionary type common to
+    the parts -/
+theorem apply_ok_type (ks : Key → Shape) (t : Term) (d d' : Dict)
+    (ha : apply ks t d = .ok d') : d'.ty = tyOf t d.ty := by
+  sorry
+
+/-! ### the union type is the join of the class lattice -/
+
+theorem lca_comm (a b : DType) : lca a b = lca b a := by
+  cases a <;> cases b <;> rfl
+
+theorem lca_assoc (a b c : DType) : lca (lca a b) c = lca a (lca b c) := by
+  cases a <;> cases b <;> cases c <;> rfl
 
 theorem lca_idem (a : DType) : lca a a = a := by cases a <;> rfl
+
+theorem lca_empty_left (a : DType) : lca .empty a = a := by cases a <;> rfl
+
+/-- `lca a b` is the least class (w.r.t. `issubclass`) that both `a` and `b` inherit from -/
+theorem lca_is_join (a b c : DType) :
+    a.isSub (lca a b) = true ∧ b.isSub (lca a b) = true ∧
+      (a.isSub c = true → b.isSub c = true → (lca a b).isSub c = true) := by
+  cases a <;> cases b <;> cases c <;> decide
+
+/-! ### algebraic laws -/
+
+/-- composition is associative: as constructors ... -/
+theorem comp_assoc_build (a b c : Term) :
+    build (.comp (.comp a b) c) = build (.comp a (.comp b c)) := by
+  sorry
+
+/-- ... and as functions (including which error is raised) -/
+theorem comp_assoc_apply (ks : Key → Shape) (a b c : Term) (d : Dict) :
+    apply ks (.comp (.comp a b) c) d = apply ks (.comp a (.comp b c)) d := by
+  sorry
+
+/-- conjunction is commutative: both orders build or fail together, with the same key sets -/
+theorem conj_comm_build (a b : Term) :
+    (∀ σ, build (.conj [a, b]) = .ok σ → ∃ σ', build (.conj [b, a]) = .ok σ' ∧
+        (∀ k, k ∈ σ.required ↔ k ∈ σ'.required) ∧ (∀ k, k ∈ σ.output ↔ k ∈ σ'.output)) ∧
+    (∀ e, build (.conj [a, b]) = .error e → build (.conj [b, a]) = .error e) := by
+  sorry
+
+/-- conjunction is associative on the level of constructors -/
+theorem conj_assoc_build (a b c : Term) :
+    (∀ σ, build (.conj [.conj [a, b], c]) = .ok σ → ∃ σ', build (.conj [a, .conj [b, c]]) = .ok σ' ∧
+        (∀ k, k ∈ σ.required ↔ k ∈ σ'.required) ∧ (∀ k, k ∈ σ.output ↔ k ∈ σ'.output)) ∧
+    (∀ σ', build (.conj [a, .conj [b, c]]) = .ok σ' → ∃ σ, build (.conj [.conj [a, b], c]) = .ok σ) := by
+  sorry
+
+/-- commutativity on the level of results: same type, same entries up to order -/
+theorem conj_comm_apply (ks : Key → Shape) (a b : Term) (d r : Dict)
+    (h : apply ks (.conj [a, b]) d = .ok r) :
+    ∃ r', apply ks (.conj [b, a]) d = .ok r' ∧ r'.ty = r.ty ∧ r'.entries.Perm r.entries := by
+  sorry
+
+/-! ### dictionaries cannot be created with values whose shapes contradict their type -/
+
+theorem mk_grads_iff (ks : Key → Shape) (es : List (Key × Shape)) :
+    (∃ d, mkDict ks .grads es = .ok d) ↔ ∀ e ∈ es, e.2 = ks e.1 := by
+  sorry
+
+theorem mk_gvecs_iff (ks : Key → Shape) (es : List (Key × Shape)) :
+    (∃ d, mkDict ks .gvecs es = .ok d) ↔ ∀ e ∈ es, e.2 = [numel (ks e.1)] := by
+  sorry
+
+theorem mk_jacs_iff (ks : Key → Shape) (es : List (Key × Shape)) :
+    (∃ d, mkDict ks .jacs es = .ok d) ↔
+      ∃ m : Nat, ∀ e ∈ es, e.2 = m :: ks e.1 := by
+  sorry
+
+theorem mk_jmats_iff (ks : Key → Shape) (es : List (Key × Shape)) :
+    (∃ d, mkDict ks .jmats es = .ok d) ↔
+      ∃ m : Nat, ∀ e ∈ es, e.2 = [m, numel (ks e.1)] := by
+  sorry
+
+theorem mk_empty_iff (ks : Key → Shape) (es : List (Key × Shape)) :
+    (∃ d, mkDict ks .empty es = .ok d) ↔ es = [] := by
+  sorry
+
+theorem mk_ok_preserves (ks : Key → Shape) (ty : DType) (es : List (Key × Shape)) (d : Dict)
+    (h : mkDict ks ty es = .ok d) : d.ty = ty ∧ d.entries = es := by
+  sorry
+
+/-! ### non-vacuity: a concrete well-formed pipeline in the style of `backward`
+    (Accumulate ∘ Select ∘ Diagonalize-free part omitted: Aggregate/Jac are not in C14's term language) -/
+
+example :
+    let ks : Key → Shape := fun k => if k = 0 then [] else if k = 1 then [2] else [2, 3]
+    let t := Term.comp (.diag [1, 0]) (.conj [.init [0], .init [1]])
+    (∃ σ, build t = .ok σ ∧ σ.required = [] ∧ σ.output = [1, 0]) ∧
+    (∃ d', apply ks t ⟨.empty, []⟩ = .ok d' ∧ d'.ty = .jacs ∧ d'.keys = [1, 0]) := by
+  sorry
 
 end Tjd.Props.C14
